@@ -24,6 +24,92 @@ CLAIMS = {
               "Class-F tolerance 8*T*eps*(sum_i max_k|c_ik| + sum beta). End-to-end use of the kernel is covered by C06/C07/C09."),
         ref="DESIGN.md section 3, C01",
     ),
+    "C02": dict(
+        technique="property-based testing (Hypothesis) with a KKT-certificate oracle at the solver's stopping point; guarded exit hook for the stop reason",
+        text=("Generated covariances (rank-deficient, ill-conditioned, diagonal, AR-like, window covariances, scaled), lambda as "
+              "scalar / constant / random symmetric matrix, rho, optional rho-update callback and tolerances are solved through the "
+              "public optimiser entry point; whenever the hook says the stopping rule fired the returned matrix must satisfy the "
+              "stationarity / subgradient conditions of the block-Toeplitz graphical lasso relaxed by exactly the solver's own "
+              "stopping tolerances (derived from the update equations; needs only Theta, S, lambda) with independently enumerated "
+              "Toeplitz classes; in the restricted regime the stop rule must fire within budget. Exploration of the input space."),
+        note=("Trusted: NumPy eigh for the inverse (its error is bounded explicitly in the slack), the derivation in DESIGN.md C02. "
+              "The hook admm_exit supplies iterations and stop reason."),
+        ref="DESIGN.md section 3, C02"),
+    "C04": dict(
+        technique="property-based testing of both front ends on generated runs + complete enumeration of the padding/splitting helpers",
+        text=("Generated end-to-end runs (single and joint, unequal series lengths, W odd/even/1) are checked for label-list lengths, "
+              "exact -1 margins, label range, MRF count/shape, echoed K and W, and for joint runs that the per-series lists are the "
+              "master labelling (run_end hook) cut at the cumulative stacked lengths; helpers enumerated for all small arguments."),
+        note="Trusted: the run_end hook for the master labelling. Runs that raise are discarded and counted.",
+        ref="DESIGN.md section 3, C04"),
+    "C05": dict(
+        technique="property-based differential testing against a textbook Gaussian log-density (Cholesky log det), kernel level (JIT + interpreted) and on traced runs",
+        text=("Hand-built models with SPD precision matrices (NW 1..200, log det steered to +-3000, condition number to 1e8) are "
+              "scored by the library's table and per-point functions and compared entrywise with an independent formula under a "
+              "condition-number-aware tolerance; on traced runs every round's cost table and all likelihood fields of the result "
+              "are recomputed from the hook's model states."),
+        note="Trusted: NumPy Cholesky/eigvalsh; tolerance (1e-9 + 4 n^2 eps kappa)(1+|ref|).",
+        ref="DESIGN.md section 3, C05"),
+    "C06": dict(
+        technique="property-based testing of result-field accounting identities on generated runs (multiset/association oracle from reference densities)",
+        text=("Completed runs of both front ends (many ending with empty clusters, scalar and per-pair beta, converged or limit) are "
+              "checked for cost = -overall LL + within-series switching cost, one likelihood entry per labelled point, overall "
+              "sum/mean/median and per-cluster mean/median over exactly the right points. Joint runs that price boundary pairs match "
+              "known finding KF1 and are reported as such; anything else is a violation."),
+        note="Trusted: association of values to clusters via reference densities under the hook's final model; rel. tolerance 1e-9 of sum|terms|.",
+        ref="DESIGN.md section 3, C06"),
+    "C08": dict(
+        technique="complete enumeration of small size vectors + Hypothesis (random sizes, ties, seeds) + Hypothesis stateful machine over relabel/repopulate histories, against an independent capacity model",
+        text=("Repopulation is executed on every size vector of the enumerated finite domain (K<=3 quick / K<=4 thorough, m in 1..3, "
+              "sizes 0..3m+2, all spread orders; K=5,m=1 in thorough), on random larger cases with tied spreads, and inside stateful "
+              "histories; outcome (error iff capacity shortage, conservation, +m per needy cluster, donor limits, donor order, "
+              "bystanders untouched, caller's state unmodified on both paths, determinism in the RNG state) is compared with a "
+              "reference model written independently of the code."),
+        note="Trusted: the capacity model in harness/oracle/repop_model.py (derived from the property text). exhaustive for the enumerated sub-domain only.",
+        ref="DESIGN.md section 3, C08"),
+    "C09": dict(
+        technique="property-based testing on hook traces of generated runs (trace invariants + exact DP optimality oracle + deterministic re-solve)",
+        text=("For generated runs of both front ends the per-phase trace is checked: round count within the limit, phase order, state "
+              "chaining, stop exactly at the first repeated labelling, repopulation only when needed, returned labels/cost/MRFs "
+              "bitwise those of the last round, MRFs reproducible from that round's covariances, and the returned labelling optimal "
+              "(exact DP) for the table and switching cost that were scored, the table being the reference density of the returned model."),
+        note="Trusted: guarded phase/run_end/relabel_inputs hooks. Optimality is judged for the beta that reached the labelling step (joint-boundary pricing is C07's).",
+        ref="DESIGN.md section 3, C09"),
+    "C10": dict(
+        technique="property-based testing (Hypothesis) with a bit-level reference construction",
+        text=("Generated series with arbitrary 64-bit patterns (NaN payloads, inf, -0.0, subnormals), C/F/strided/read-only layouts, "
+              "1..6 series of unequal length: the stacked rows must equal an independently built expectation compared as uint64, "
+              "multi-series stacking must be the concatenation, and split+pad must restore per-series lists."),
+        note="float64 inputs only (bit-exactness is stated for doubles).",
+        ref="DESIGN.md section 3, C10"),
+    "C11": dict(
+        technique="complete enumeration of the property's finite domain (n<=150; N<=10, W<=14) plus Hypothesis float round trips",
+        text=("Every n up to 150 (thorough 400) and every (N,W) up to 10x14 (thorough 14x20) is enumerated: compress/reinflate are "
+              "mutually inverse, the closed-form index equals the row-major rank for every (r,c), class position lists partition the "
+              "upper triangle with the right sizes and identities against an independently built symbolic block-Toeplitz matrix, and "
+              "both index forms agree. The quick tier already covers the whole stated domain."),
+        note="Private helper names come from the property's anchors; a missing helper exits 2. Exhaustive for the enumerated sub-check.",
+        ref="DESIGN.md section 3, C11"),
+    "C12": dict(
+        technique="property-based testing on hook traces with a recording stand-in pool; independent sample mean/covariance recomputation",
+        text=("In every round of generated runs (with repopulation events, both estimators) each cluster's member set, mean and "
+              "covariance are recomputed from the labels entering the statistics phase and compared, and the arguments of every "
+              "optimiser call (covariance bit for bit, sparsity weight, W, N) are recorded by substituting the public entry point."),
+        note="Trusted: phase hook; synchronous pool stand-in (documented seam). Entry tolerance 1e-10*sqrt(S_ii S_jj).",
+        ref="DESIGN.md section 3, C12"),
+    "C16": dict(
+        technique="property-based differential testing of the reported BIC against an independent formula on generated runs (incl. determinants outside the double range)",
+        text=("BIC of generated completed runs (plus wide-scale / NW up to 60 runs whose determinants under/overflow a double) is "
+              "recomputed from the run_end model with Cholesky log-determinants and run-length parameter counting; must be finite for PD MRFs."),
+        note="Trusted: run_end hook. Joint runs: a run continuing across a series boundary may count once or twice (both accepted).",
+        ref="DESIGN.md section 3, C16"),
+    "C17": dict(
+        technique="property-based differential + metamorphic (translation) testing of the Calinski-Harabasz index, function level and on converged runs",
+        text=("The index is recomputed from data and labels with the per-column centroid and compared; translation of each sensor "
+              "must not change it. On this tree the implementation centres on the scalar mean of all entries: every distinguishable "
+              "case matches that signature exactly and is reported as known finding KF2; any third value is a violation."),
+        note="Known finding KF2 open (repair would change pinned regression values). Converged runs with all clusters non-empty only.",
+        ref="DESIGN.md section 3, C17"),
 }
 
 NOT_CLAIMED = {}
